@@ -152,7 +152,7 @@ def machine : Machine where
       match (List.range q.sc.st.n).find? (fun u => !(q.lk.sh.hl u).isEmpty) with
       | some u => some s!"actor {u} still holds a guard at the end of a finished run"
       | none => none
-  skip := fun e => e.kind == "note"
+  skip := Scope.skipEv
 
 /-- a family that is checked by its oracles only (its traces are not replayed): `paniccq`, whose cqueue events belong
     to C16's model. (Before F10.patch `panicscope` was such a family too: under finding F10 - a coroutine that parks while
